@@ -386,8 +386,10 @@ static std::vector<Op> alphabet(int nf, int no)
   return a;
 }
 
+// prelude: operations carried out before the enumerated part (e.g. "register f0 into owner 0, destroy_sandbox, create_sandbox":
+// every enumerated sequence then starts in the second incarnation with a stale owner around)
 template<typename B>
-static void exhaustive(int depth, int nf, int no)
+static void exhaustive(int depth, int nf, int no, const std::vector<Op>& prelude = {})
 {
   auto alpha = alphabet(nf, no);
   size_t A = alpha.size();
@@ -400,7 +402,9 @@ static void exhaustive(int depth, int nf, int no)
     if (idx[0] % mon::nslices() == mon::slice()) {
       Runner<B> r(nf);
       int ended_at = depth;
-      for (int d = 0; d < depth; d++)
+      bool pre_ok = true;
+      for (const Op& po : prelude) if (!r.step(po)) { pre_ok = false; break; }
+      for (int d = 0; pre_ok && d < depth; d++)
         if (!r.step(alpha[idx[d]])) { ended_at = d; break; }
       seqs++;
       // prune: everything sharing the prefix up to the terminal step behaves the same
@@ -420,8 +424,8 @@ static void exhaustive(int depth, int nf, int no)
     if (d < 0) done = true;
   }
   mon::distinct_counted(seqs);
-  mon::extra_num(std::string("exhaustive_sequences_") + BT<B>::name, seqs);
-  mon::extra_num(std::string("exhaustive_depth_") + BT<B>::name, depth);
+  mon::extra_num(std::string(prelude.empty() ? "exhaustive_sequences_" : "exhaustive_sequences_after_recreate_") + BT<B>::name, seqs);
+  mon::extra_num(std::string(prelude.empty() ? "exhaustive_depth_" : "exhaustive_depth_after_recreate_") + BT<B>::name, depth);
   mon::sample(mon::fmt("{\"backend\":\"%s\",\"mode\":\"exhaustive\",\"depth\":%d,\"alphabet\":%zu,\"sequences_replayed\":%llu,\"of_total\":%llu}", BT<B>::name, depth, A, (unsigned long long)seqs, (unsigned long long)total));
 }
 
@@ -525,6 +529,9 @@ static void run_backend(mon::Rng& rng)
   fill_table<B>();
   // depth 5 (20.5 million sequences) only for the model backend in the thorough tier
   exhaustive<B>(mon::tier(3, std::is_same_v<B, VS> ? 5 : 4), 2, 3);
+  // the same alphabet once more from the second incarnation with a stale owner of f0 around: stale and live owners of the
+  // SAME function on the same sandbox object meet in every combination of register / move / overwrite / release
+  exhaustive<B>(mon::tier(2, 4), 2, 3, { { O_REG, 0, 0 }, { O_DSBX, 0, 0 }, { O_CSBX, 0, 0 } });
   random_histories<B>(mon::tier(60, 1500), mon::tier(60, 300), rng);
 }
 
